@@ -151,6 +151,10 @@ def problems(kind, tier, seed, light=False):
                         continue
                     if p["mode"] != "fmin" and v < 0.25:
                         p["direc"] = rng.choice(["scaled", "rotated"])
+                    elif 0.25 <= v < 0.45:
+                        # a caller's direction set in other legal spellings: python ints, an integer array, tuples
+                        # (fmin_powell takes direc= too)
+                        p["direc"] = rng.choice(["inteye", "intmix", "intarray", "tuple"])
                     w = rng.random()
                     if w < 0.2:
                         p["xtol"], p["ftol"] = rng.choice([(1e-2, 1e-2), (1e-6, 1e-8), (1e-3, 1e-6)])
@@ -634,10 +638,29 @@ class PWRec(object):
             return np.eye(n, dtype=float)
         if d == "scaled":
             return np.diag([0.5 * (i + 1) for i in range(n)]).astype(float)
+        if d == "inteye":
+            return np.eye(n, dtype=float)
+        if d in ("intmix", "intarray", "tuple"):
+            m = np.eye(n, dtype=float)
+            for i in range(n - 1):
+                m[i, i + 1] = 1.0
+                m[i + 1, i] = -1.0
+            return m
         m = np.eye(n, dtype=float)
         for i in range(n - 1):
             m[i, i + 1] = 0.5
             m[i + 1, i] = -0.25
+        return m
+
+    def spec_dirs_arg(self):
+        """the direction set as the caller writes it: the same vectors as spec_dirs() in the spelling named by the spec"""
+        d, m = self.spec.get("direc"), self.spec_dirs()
+        if d in ("inteye", "intmix"):
+            return [[int(v) for v in row] for row in m]
+        if d == "intarray":
+            return m.astype(int)
+        if d == "tuple":
+            return tuple(tuple(float(v) for v in row) for row in m)
         return m
 
     def returned(self, msg):
@@ -660,7 +683,7 @@ def record_pw(spec):
     M._linesearch_powell = rec.wrap_ls(orig_ls)
     try:
         with quiet(), spy(M.PowellDirectionalSolver, rec):
-            direc = None if spec.get("direc") is None else rec.spec_dirs()
+            direc = None if spec.get("direc") is None else rec.spec_dirs_arg()
             if spec["mode"] == "fmin":
                 res = M.fmin_powell(rec.cost, list(spec["x0"]), xtol=spec["xtol"], ftol=spec["ftol"], maxiter=spec["maxiter"],
                                     maxfun=spec["maxfun"], full_output=1, disp=0, direc=direc)
